@@ -48,6 +48,12 @@ namespace Runner
 @[simp] theorem plainToksOf_cons (e : Ev) (l : List Ev) :
     plainToksOf (e :: l) = (Ev.tok? e).toList ++ plainToksOf l := by
   cases h : Ev.tok? e <;> simp [plainToksOf, h]
+@[simp] theorem recordsOf_nil : recordsOf [] = [] := rfl
+@[simp] theorem recordsOf_append (a b : List Ev) : recordsOf (a ++ b) = recordsOf a ++ recordsOf b := by
+  simp [recordsOf, List.filterMap_append]
+@[simp] theorem recordsOf_cons (e : Ev) (l : List Ev) :
+    recordsOf (e :: l) = (Ev.record? e).toList ++ recordsOf l := by
+  cases h : Ev.record? e <;> simp [recordsOf, h]
 @[simp] theorem clocksOf_nil : clocksOf [] = [] := rfl
 @[simp] theorem clocksOf_append (a b : List Ev) : clocksOf (a ++ b) = clocksOf a ++ clocksOf b := by
   simp [clocksOf, List.filterMap_append]
@@ -219,6 +225,18 @@ theorem runStmts_plain (cfg : Cfg) (t : Test) (ph : Phase) (d : Int) :
           simp [runStmts, PhaseOut.cons, Ev.tok?, ih, hexc, outcome_fails, outcome_counted, hfw, executed_check_fails, executed_check_passes,
             Stmt.checkCount, Result.countChecks]
       | _ => simp [runStmts, PhaseOut.cons, Ev.tok?, ih, hexc])
+
+theorem runStmts_records (cfg : Cfg) (t : Test) (ph : Phase) (d : Int) :
+    ∀ (p : List Stmt) (res : Result) (hf : Bool),
+      recordsOf (runStmts cfg t ph d res hf p).evs = failuresOf (runStmts cfg t ph d res hf p).evs
+  | [], res, hf => by simp [runStmts]
+  | s :: rest, res, hf => by
+    have ih := runStmts_records cfg t ph d rest
+    cases hexc : cfg.exceptions <;>
+    (cases s with
+      | check k pass loc msg =>
+        cases hfw : k.failsWhen pass <;> simp [runStmts, PhaseOut.cons, Ev.record?, Ev.failure?, ih, hexc, outcome_fails, hfw]
+      | _ => simp [runStmts, PhaseOut.cons, Ev.record?, Ev.failure?, ih, hexc])
 
 theorem runStmts_failures (cfg : Cfg) (t : Test) (ph : Phase) (d : Int) :
     ∀ (p : List Stmt) (res : Result) (hf : Bool),
@@ -962,11 +980,229 @@ theorem runOneTest_closed (cfg : Cfg) (plugins : List Plugin) (t : Test) (st : T
       | exact safePlain_of_nil (runAllPre_spec cfg t plugins _).2.2.2.2.2.2
       | exact safePlain_of_nil (runAllPost_spec cfg t plugins _).2.2.2.2.2.2
 
+/-! ## no "separate process" record inside one in-process test -/
+
+theorem records_vv (cfg : Cfg) (s : String) : recordsOf (vv cfg s) = [] := by
+  unfold vv; split <;> simp [Ev.record?]
+theorem records_vvU (cfg : Cfg) (s : String) : recordsOf (vvU cfg s) = [] := by
+  unfold vvU; split <;> simp [Ev.record?]
+theorem records_vvTail (cfg : Cfg) (ph : Phase) (e : Exit) : recordsOf (vvTail cfg ph e) = [] := by
+  unfold vvTail; split <;> simp [records_vvU]
+theorem records_map_failure (l : List FailRec) : recordsOf (l.map Ev.failure) = l := by
+  induction l with
+  | nil => rfl
+  | cons a l ih => simp [Ev.record?, ih]
+
+theorem phaseStep_records (cfg : Cfg) (t : Test) (ph : Phase) (st : TSt) :
+    recordsOf (phaseStep cfg t ph st).evs = failuresOf (phaseStep cfg t ph st).evs := by
+  simp [phaseStep, phaseEvs, phaseOut, records_vvU, records_vvTail, runStmts_records, records_map_failure,
+    failuresOf_map_failure, Ev.record?, Ev.failure?]
+
+theorem utestClosed_records (cfg : Cfg) (t : Test) (st : TSt) :
+    recordsOf (utestClosed cfg t st).evs = failuresOf (utestClosed cfg t st).evs := by
+  simp only [utestClosed, afterBody]
+  split <;> simp [phaseStep_records]
+
+theorem reportErrs_records (cfg : Cfg) (t : Test) (errs : List PErr) (st : TSt) :
+    recordsOf (reportErrs cfg t errs st).evs = failuresOf (reportErrs cfg t errs st).evs := by
+  rw [(reportErrs_spec cfg t errs st).2, records_map_failure, failuresOf_map_failure]
+
+theorem runAllPre_records (cfg : Cfg) (t : Test) : ∀ (ps : List Plugin) (st : TSt),
+    recordsOf (runAllPre cfg t ps st).evs = failuresOf (runAllPre cfg t ps st).evs
+  | [], st => by simp [runAllPre]
+  | p :: rest, st => by
+    unfold runAllPre
+    cases p.enabled
+    · simpa using runAllPre_records cfg t rest st
+    · simp [Ev.record?, Ev.failure?, reportErrs_records, runAllPre_records cfg t rest]
+
+theorem runAllPost_records (cfg : Cfg) (t : Test) : ∀ (ps : List Plugin) (st : TSt),
+    recordsOf (runAllPost cfg t ps st).evs = failuresOf (runAllPost cfg t ps st).evs
+  | [], st => by simp [runAllPost]
+  | p :: rest, st => by
+    unfold runAllPost
+    cases p.enabled
+    · simpa using runAllPost_records cfg t rest st
+    · simp [Ev.record?, Ev.failure?, reportErrs_records, runAllPost_records cfg t rest]
+
+/-! ## `runOneTestInCurrentProcess`, as the parent or as the forked child runs it -/
+
+structure ChildOutcome (cfg : Cfg) (plugins : List Plugin) (t : Test) (st : TSt) (fr : Frame) : Prop where
+  exit : fr.exit = .normal
+  depth : fr.st.depth = st.depth
+  res : fr.st.res = st.res.bump (testChecks cfg t) (testFailures cfg plugins t).length
+  failures : failuresOf fr.evs = testFailures cfg plugins t
+  records : recordsOf fr.evs = testFailures cfg plugins t
+  marks : marksIn fr.evs = testMarks cfg t
+  enters : entersOf fr.evs = phasesRun cfg t
+  summaries : summariesOf fr.evs = []
+  ended : endedOf fr.evs = []
+  plain : cfg.veryVerbose = false → plainToksOf fr.evs = []
+  safe : SafePlain fr.evs
+
+theorem inProcess_closed (cfg : Cfg) (plugins : List Plugin) (t : Test) (st : TSt)
+    (hq : QuietTest cfg t) (h : inBuf st.depth = true) :
+    ∃ fr, runOneTestInCurrentProcess cfg plugins t st = .ok fr ∧ ChildOutcome cfg plugins t st fr := by
+  unfold runOneTestInCurrentProcess
+  simp only []
+  rw [utestRun_closed cfg t _ hq (by simpa using h)]
+  simp only [afterRun, beforeRun]
+  refine ⟨_, rfl, ?_⟩
+  have hf : failuresOf (vv cfg "\n-- before runAllPreTestAction: " ++ (runAllPre cfg t plugins st).evs ++
+      vv cfg "\n-- after runAllPreTestAction: " ++ vv cfg "\n---- before createTest: " ++ vv cfg "\n---- after createTest: " ++
+      vv cfg "\n------ before runTest: " ++
+      (utestClosed cfg t { (runAllPre cfg t plugins st).st with current := some t.name }).evs ++
+      vv cfg "\n------ after runTest: " ++ vv cfg "\n---- before destroyTest: " ++ vv cfg "\n---- after destroyTest: " ++
+      vv cfg "\n-- before runAllPostTestAction: " ++
+      (runAllPost cfg t plugins { (utestClosed cfg t { (runAllPre cfg t plugins st).st with current := some t.name }).st with
+        current := (runAllPre cfg t plugins st).st.current }).evs ++ vv cfg "\n-- after runAllPostTestAction: ")
+      = testFailures cfg plugins t := by
+    simp [(runAllPre_spec cfg t plugins _).2.1, (runAllPost_spec cfg t plugins _).2.1, utestClosed_failures, testFailures]
+  constructor
+  · rfl
+  · simp
+  · simp [utestClosed_res, testFailures, Nat.add_assoc]
+  · exact hf
+  · rw [← hf]
+    simp [records_vv, runAllPre_records, runAllPost_records, utestClosed_records]
+  · simp [(runAllPre_spec cfg t plugins _).2.2.1, (runAllPost_spec cfg t plugins _).2.2.1, utestClosed_marks]
+  · simp [(runAllPre_spec cfg t plugins _).2.2.2.1, (runAllPost_spec cfg t plugins _).2.2.2.1, utestClosed_enters]
+  · simp [(runAllPre_spec cfg t plugins _).2.2.2.2.1, (runAllPost_spec cfg t plugins _).2.2.2.2.1, (utestClosed_other cfg t _).1]
+  · simp [(runAllPre_spec cfg t plugins _).2.2.2.2.2.1, (runAllPost_spec cfg t plugins _).2.2.2.2.2.1, (utestClosed_other cfg t _).2]
+  · intro hv
+    simp [(runAllPre_spec cfg t plugins _).2.2.2.2.2.2, (runAllPost_spec cfg t plugins _).2.2.2.2.2.2,
+      utestClosed_plain cfg t _ hv, plain_vv cfg _ hv]
+  · simp only [safePlain_append]
+    repeat' (apply And.intro)
+    all_goals first
+      | exact safePlain_vv cfg _ (by simp [markers])
+      | exact utestClosed_safe cfg t _
+      | exact safePlain_of_nil (runAllPre_spec cfg t plugins _).2.2.2.2.2.2
+      | exact safePlain_of_nil (runAllPost_spec cfg t plugins _).2.2.2.2.2.2
+
+/-! ## one test in the mode the command line selected (`-p` or not) -/
+
+/-- what the run records for one `test->runOneTest(...)` in either mode -/
+structure ModeOutcome (cfg : Cfg) (plugins : List Plugin) (t : Test) (st : TSt) (j : JmpOut) : Prop where
+  esc : j.esc = none
+  depth : j.st.depth = st.depth
+  current : j.st.current = st.current
+  res : j.st.res = (st.res.countRun).bump (testChecksCounted cfg t) (testFailCount cfg plugins t)
+  hasFailed : j.st.hasFailed = (!cfg.separate && !(testPhaseFailures cfg t).isEmpty)
+  failures : failuresOf j.evs = testFailures cfg plugins t
+  records : recordsOf j.evs = testRecords cfg plugins t
+  marks : marksIn j.evs = testMarks cfg t
+  enters : entersOf j.evs = phasesRun cfg t
+  summaries : summariesOf j.evs = []
+  ended : endedOf j.evs = []
+  plain : cfg.veryVerbose = false → plainToksOf j.evs = []
+  safe : SafePlain j.evs
+
+theorem sepRec_safe_cons (r : FailRec) (l : List Ev) : SafePlain (l ++ [.sepFailure r]) ↔ SafePlain l := by
+  simp [safePlain_cons, Ev.tok?]
+
+theorem runOneTestMode_closed (cfg : Cfg) (plugins : List Plugin) (t : Test) (st : TSt)
+    (hq : QuietTest cfg t) (h0 : inBuf st.depth = true) (h1 : inBuf (st.depth + 1) = true) :
+    ∃ j, runOneTestMode cfg plugins t st = .ok j ∧ ModeOutcome cfg plugins t st j := by
+  unfold runOneTestMode
+  cases hsep : cfg.separate with
+  | false =>
+    simp only [Bool.false_eq_true, if_false]
+    obtain ⟨j, hj, o⟩ := runOneTest_closed cfg plugins t st hq h0 h1
+    refine ⟨j, hj, ?_⟩
+    have hrec : recordsOf j.evs = testFailures cfg plugins t := by
+      -- the events are those of runOneTestInCurrentProcess
+      unfold runOneTest setJmp at hj
+      simp only [h0, Bool.not_true, Bool.false_eq_true, if_false] at hj
+      obtain ⟨fr, hfr, ofr⟩ := inProcess_closed cfg plugins t
+        { res := st.res.countRun, hasFailed := false, depth := st.depth + 1, current := st.current } hq h1
+      rw [hfr] at hj
+      simp only [setJmpAfter, ofr.exit] at hj
+      have := Except.ok.inj hj
+      rw [← this]
+      exact ofr.records
+    constructor
+    · exact o.esc
+    · exact o.depth
+    · exact o.current
+    · rw [o.res]; simp [testChecksCounted, testFailCount, hsep]
+    · rw [o.hasFailed]; simp [hsep]
+    · exact o.failures
+    · rw [hrec]; simp [testRecords, hsep]
+    · exact o.marks
+    · exact o.enters
+    · exact o.summaries
+    · exact o.ended
+    · exact o.plain
+    · exact o.safe
+  | true =>
+    simp only [if_true]
+    unfold runOneTestSeparate setJmp
+    simp only [h0, Bool.not_true, Bool.false_eq_true, if_false, separateFn]
+    obtain ⟨fr, hfr, ofr⟩ := inProcess_closed cfg plugins t
+      { res := st.res.countRun, hasFailed := false, depth := st.depth + 1, current := st.current } hq h1
+    rw [hfr]
+    simp only [ofr.res]
+    cases hne : (testFailures cfg plugins t) with
+    | nil =>
+      have hlt : ¬ (st.res.countRun.failureCount < (st.res.countRun.bump (testChecks cfg t) (testFailures cfg plugins t).length).failureCount) := by
+        simp [Result.bump, hne]
+      simp only [hne] at hlt ⊢
+      simp only [hlt, if_false, setJmpAfter, TSt.dec]
+      refine ⟨_, rfl, ?_⟩
+      constructor
+      · rfl
+      · simp
+      · rfl
+      · simp [testChecksCounted, testFailCount, hsep, hne]
+      · simp [hsep]
+      · simpa [hne] using ofr.failures
+      · simpa [testRecords, hne] using ofr.records
+      · exact ofr.marks
+      · exact ofr.enters
+      · exact ofr.summaries
+      · exact ofr.ended
+      · exact ofr.plain
+      · exact ofr.safe
+    | cons r0 rs =>
+      have hlt : st.res.countRun.failureCount < (st.res.countRun.bump (testChecks cfg t) (r0 :: rs).length).failureCount := by
+        simp [Result.bump]
+      simp only [hlt, if_true, setJmpAfter, TSt.dec]
+      refine ⟨_, rfl, ?_⟩
+      constructor
+      · rfl
+      · simp
+      · rfl
+      · simp [testChecksCounted, testFailCount, hsep, hne, Result.bump, Result.countFailure]
+      · simp [hsep]
+      · simpa [hne, Ev.failure?] using ofr.failures
+      · simp [testRecords, hsep, hne, Ev.record?, sepRec, ofr.records]
+      · simpa [Ev.mark?] using ofr.marks
+      · simpa [Ev.enter?] using ofr.enters
+      · simpa [Ev.summary?] using ofr.summaries
+      · simpa [Ev.ended?] using ofr.ended
+      · intro hv; simpa [Ev.tok?] using ofr.plain hv
+      · exact (sepRec_safe_cons _ _).mpr ofr.safe
+
 /-! ## the loop over the registry -/
 
 /-- an event list without structured events (plain strings, clock readings) -/
 def Inert (evs : List Ev) : Prop :=
   failuresOf evs = [] ∧ marksIn evs = [] ∧ entersOf evs = [] ∧ summariesOf evs = [] ∧ endedOf evs = []
+
+/-- ... and no failure record of either kind -/
+theorem records_testStartedToks (cfg : Cfg) (t : Test) : recordsOf (testStartedToks cfg t) = [] := by
+  unfold testStartedToks; split <;> simp [Ev.record?]
+theorem records_testEndedToks (cfg : Cfg) (ind : String) (dots time : Nat) : recordsOf (testEndedToks cfg ind dots time) = [] := by
+  unfold testEndedToks; split
+  · simp [Ev.record?]
+  · split <;> simp [Ev.record?]
+theorem records_testRunToks (a b : Nat) : recordsOf (testRunToks a b) = [] := by
+  unfold testRunToks; split <;> simp [Ev.record?]
+theorem records_groupStarted (cfg : Cfg) (s : LSt) : recordsOf (groupStarted cfg s).evs = [] := by
+  unfold groupStarted; split <;> simp [Ev.record?]
+theorem records_groupEnded (cfg : Cfg) (last : Bool) (s : LSt) : recordsOf (groupEnded cfg last s).evs = [] := by
+  unfold groupEnded; split <;> simp [Ev.record?]
 
 theorem testStartedToks_inert (cfg : Cfg) (t : Test) : Inert (testStartedToks cfg t) := by
   unfold testStartedToks Inert
@@ -1020,12 +1256,13 @@ theorem groupEnded_safe (cfg : Cfg) (last : Bool) (s : LSt) : SafePlain (groupEn
   unfold groupEnded; split <;> simp [safePlain_cons, Ev.tok?]
 
 /-- the per-test failed flag the property demands: the test ran and one of its phases failed -/
-def failedFlag (cfg : Cfg) (t : Test) : Bool := willRun cfg t && !(testPhaseFailures cfg t).isEmpty
+def failedFlag (cfg : Cfg) (t : Test) : Bool :=
+  willRun cfg t && (!cfg.separate && !(testPhaseFailures cfg t).isEmpty)
 
 /-- counters after one entry of the registry -/
 def addTest (cfg : Cfg) (plugins : List Plugin) (r : Result) (t : Test) : Result :=
   if shouldRun cfg t then
-    if willRun cfg t then (r.countTest.countRun).bump (testChecks cfg t) (testFailures cfg plugins t).length
+    if willRun cfg t then (r.countTest.countRun).bump (testChecksCounted cfg t) (testFailCount cfg plugins t)
     else r.countTest.countIgnored
   else r.countTest.countFilteredOut
 
@@ -1034,6 +1271,7 @@ structure EntryOutcome (cfg : Cfg) (plugins : List Plugin) (ts : List Test) (s :
   current : a.st.current = s.current
   res : a.st.res = ts.foldl (addTest cfg plugins) s.res
   failures : failuresOf a.evs = (running cfg ts).flatMap (testFailures cfg plugins)
+  records : recordsOf a.evs = (running cfg ts).flatMap (testRecords cfg plugins)
   marks : marksIn a.evs = (running cfg ts).flatMap (testMarks cfg)
   enters : entersOf a.evs = (running cfg ts).flatMap (phasesRun cfg)
   summaries : summariesOf a.evs = []
@@ -1070,14 +1308,14 @@ theorem runFiltered_closed (cfg : Cfg) (plugins : List Plugin) (t : Test) (s : L
         simp [safePlain_cons, Ev.tok?]
       any_goals
         simp [addTest, hs, hw, running, selected, failedFlag, a1, a2, a3, a4, a5, b1, b2, b3, b4, b5,
-          Ev.failure?, Ev.mark?, Ev.enter?, Ev.summary?, Ev.ended?]
+          Ev.failure?, Ev.mark?, Ev.enter?, Ev.summary?, Ev.ended?, Ev.record?, records_testStartedToks, records_testEndedToks]
       · intro hv; simp [dotsAfter, hv]
       · intro hv
         simp [testStartedToks, testEndedToks, hv, Ev.tok?, progressToks, indicatorOf, hw]
         split <;> simp [Ev.tok?]
     | true =>
       simp only [if_true]
-      obtain ⟨j, hj, ho⟩ := runOneTest_closed cfg plugins t ⟨s.res.countTest, false, s.depth, s.current⟩ hq h0 h1
+      obtain ⟨j, hj, ho⟩ := runOneTestMode_closed cfg plugins t ⟨s.res.countTest, false, s.depth, s.current⟩ hq h0 h1
       rw [hj]
       simp only [ho.esc]
       refine ⟨_, rfl, ?_⟩
@@ -1092,8 +1330,8 @@ theorem runFiltered_closed (cfg : Cfg) (plugins : List Plugin) (t : Test) (s : L
         · simp [safePlain_cons, Ev.tok?]
       any_goals
         simp [addTest, hs, hw, running, selected, failedFlag, a1, a2, a3, a4, a5, b1, b2, b3, b4, b5,
-          Ev.failure?, Ev.mark?, Ev.enter?, Ev.summary?, Ev.ended?,
-          ho.depth, ho.current, ho.res, ho.hasFailed, ho.failures, ho.marks, ho.enters, ho.summaries, ho.ended]
+          Ev.failure?, Ev.mark?, Ev.enter?, Ev.summary?, Ev.ended?, Ev.record?, records_testStartedToks, records_testEndedToks,
+          ho.depth, ho.current, ho.res, ho.hasFailed, ho.failures, ho.records, ho.marks, ho.enters, ho.summaries, ho.ended]
       · intro hv; simp [dotsAfter, hv]
       · intro hv
         have hp := ho.plain (anyVerbose_false hv).2
@@ -1124,6 +1362,7 @@ theorem runEntry_closed (cfg : Cfg) (plugins : List Plugin) (t : Test) (last : B
   · simp [hec, oa.current, hgc]
   · simp [her, oa.res, hgr]
   · simp [g1, e1, oa.failures]
+  · simp [records_groupStarted, records_groupEnded, oa.records]
   · simp [g2, e2, oa.marks]
   · simp [g3, e3, oa.enters]
   · simp [g4, e4, oa.summaries]
@@ -1167,6 +1406,7 @@ theorem runTests_closed (cfg : Cfg) (plugins : List Plugin) :
     · simp [ob.current, oa.current]
     · simp [ob.res, oa.res]
     · rw [running_cons]; simp [oa.failures, ob.failures]
+    · rw [running_cons]; simp [oa.records, ob.records]
     · rw [running_cons]; simp [oa.marks, ob.marks]
     · rw [running_cons]; simp [oa.enters, ob.enters]
     · simp [oa.summaries, ob.summaries]
@@ -1187,8 +1427,8 @@ theorem foldl_addTest (cfg : Cfg) (plugins : List Plugin) : ∀ (ts : List Test)
     ts.foldl (addTest cfg plugins) r =
       { testCount := r.testCount + ts.length,
         runCount := r.runCount + (running cfg ts).length,
-        checkCount := r.checkCount + ((running cfg ts).map (testChecks cfg)).sum,
-        failureCount := r.failureCount + ((running cfg ts).flatMap (testFailures cfg plugins)).length,
+        checkCount := r.checkCount + ((running cfg ts).map (testChecksCounted cfg)).sum,
+        failureCount := r.failureCount + ((running cfg ts).map (testFailCount cfg plugins)).sum,
         filteredOutCount := r.filteredOutCount + (ts.length - (selected cfg ts).length),
         ignoredCount := r.ignoredCount + ((selected cfg ts).length - (running cfg ts).length) }
   | [], r => by simp [running, selected]
@@ -1231,6 +1471,7 @@ structure RegistryOutcome (cfg : Cfg) (plugins : List Plugin) (ts : List Test) (
   res : a.st.res = expectedCounts cfg plugins ts
   dots : a.st.out.dotCount = 0
   failures : failuresOf a.evs = expectedFailures cfg plugins ts
+  records : recordsOf a.evs = expectedRecords cfg plugins ts
   marks : marksIn a.evs = (running cfg ts).flatMap (testMarks cfg)
   enters : entersOf a.evs = (running cfg ts).flatMap (phasesRun cfg)
   ended : endedOf a.evs = (selected cfg ts).map (fun t => (s.depth, s.current, failedFlag cfg t))
@@ -1257,6 +1498,7 @@ theorem registryRunAll_closed (cfg : Cfg) (plugins : List Plugin) (ts : List Tes
   · simp [hr]
   · rfl
   · simp [ob.failures, expectedFailures, Ev.failure?]
+  · simp [ob.records, expectedRecords, Ev.record?]
   · simp [ob.marks, Ev.mark?]
   · simp [ob.enters, Ev.enter?]
   · simp [ob.ended, Ev.ended?]
@@ -1284,6 +1526,7 @@ structure RepOutcome (cfg : Cfg) (plugins : List Plugin) (ts : List Test) (k : N
   failedExecs : a.st.failedExecutionCount =
     s.failedExecutionCount + (if (expectedCounts cfg plugins ts).isFailure then k else 0)
   failures : failuresOf a.evs = flattenRep k (expectedFailures cfg plugins ts)
+  records : recordsOf a.evs = flattenRep k (expectedRecords cfg plugins ts)
   marks : marksIn a.evs = flattenRep k ((running cfg ts).flatMap (testMarks cfg))
   enters : entersOf a.evs = flattenRep k ((running cfg ts).flatMap (phasesRun cfg))
   summaries : (summariesOf a.evs).map Prod.fst = List.replicate k (expectedCounts cfg plugins ts)
@@ -1306,6 +1549,7 @@ theorem repetition_closed (cfg : Cfg) (plugins : List Plugin) (ts : List Test) (
   · simp [ob.res]
   · simp only [ob.res]; split <;> simp
   · simp [t1, ob.failures]
+  · simp [records_testRunToks, ob.records]
   · simp [t2, ob.marks]
   · simp [t3, ob.enters]
   · simp [t4, hsum]
@@ -1333,6 +1577,7 @@ theorem repeatLoop_closed (cfg : Cfg) (plugins : List Plugin) (ts : List Test) (
     · simp only [ob.failedTests, oa.failedTests, Nat.add_mul]; omega
     · simp only [ob.failedExecs, oa.failedExecs]; split <;> omega
     · simp [ob.failures, oa.failures, flattenRep_succ]
+    · simp [ob.records, oa.records, flattenRep_succ]
     · simp [ob.marks, oa.marks, flattenRep_succ]
     · simp [ob.enters, oa.enters, flattenRep_succ]
     · simp [ob.summaries, oa.summaries, List.replicate_succ]
@@ -1347,6 +1592,7 @@ structure RunOutcome (cfg : Cfg) (plugins : List Plugin) (ts : List Test) (n : N
                   (if (expectedCounts cfg plugins ts).isFailure then n else 0)
   lastEv : o.evs.getLast? = some (.ret o.ret)
   failures : failuresOf o.evs = flattenRep n (expectedFailures cfg plugins ts)
+  records : recordsOf o.evs = flattenRep n (expectedRecords cfg plugins ts)
   marks : marksIn o.evs = flattenRep n ((running cfg ts).flatMap (testMarks cfg))
   enters : entersOf o.evs = flattenRep n ((running cfg ts).flatMap (phasesRun cfg))
   summaries : (summariesOf o.evs).map Prod.fst = List.replicate n (expectedCounts cfg plugins ts)
@@ -1367,6 +1613,7 @@ theorem runAllTests_closed (cfg : Cfg) (plugins : List Plugin) (ts : List Test) 
   · simp [runnerReturn, oa.failedTests, oa.failedExecs]
   · simp
   · simp [oa.failures, Ev.failure?]
+  · simp [oa.records, Ev.record?]
   · simp [oa.marks, Ev.mark?]
   · simp [oa.enters, Ev.enter?]
   · simp [oa.summaries, Ev.summary?]
@@ -1712,7 +1959,7 @@ theorem runOneTest_propagates (cfg : Cfg) (plugins : List Plugin) (t : Test) (st
   · simp [oq.ended, beforeRun, (runAllPre_spec cfg t plugins _).2.2.2.2.2.1, selected]
 
 theorem runEntry_propagates (cfg : Cfg) (plugins : List Plugin) (t : Test) (last : Bool) (s : LSt) (ph : Phase) (k : ExcKind)
-    (hx : cfg.exceptions = true) (hr : cfg.rethrow = true) (hs : shouldRun cfg t = true) (hw : willRun cfg t = true)
+    (hx : cfg.exceptions = true) (hr : cfg.rethrow = true) (hsep : cfg.separate = false) (hs : shouldRun cfg t = true) (hw : willRun cfg t = true)
     (hf : firstThrow cfg t = some (ph, k)) (h0 : inBuf s.depth = true) (h1 : inBuf (s.depth + 1) = true) :
     ∃ p, runEntry cfg plugins t last s = .error (.propagated p) ∧ LeftOutcome cfg plugins [] t ph k s.depth p := by
   have hgd : (groupStarted cfg s).st.depth = s.depth := by unfold groupStarted; split <;> rfl
@@ -1722,8 +1969,8 @@ theorem runEntry_propagates (cfg : Cfg) (plugins : List Plugin) (t : Test) (last
   obtain ⟨q, hq, oq⟩ := runOneTest_propagates cfg plugins t
     ⟨(groupStarted cfg s).st.res.countTest, false, (groupStarted cfg s).st.depth, (groupStarted cfg s).st.current⟩ ph k hx hr hf
     (by rw [hgd]; exact h0) (by rw [hgd]; exact h1)
-  unfold runEntry runFiltered runSelected
-  simp only [hs, hw, if_true]
+  unfold runEntry runFiltered runSelected runOneTestMode
+  simp only [hs, hw, if_true, hsep, Bool.false_eq_true, if_false]
   rw [hq]
   refine ⟨_, rfl, ?_⟩
   constructor
@@ -1737,19 +1984,19 @@ theorem runEntry_propagates (cfg : Cfg) (plugins : List Plugin) (t : Test) (last
   · simpa [Stop.prepend, g5, a5, Ev.ended?] using oq.endedCount
 
 theorem runTests_propagates (cfg : Cfg) (plugins : List Plugin) (t : Test) (post : List Test) (ph : Phase) (k : ExcKind)
-    (hx : cfg.exceptions = true) (hr : cfg.rethrow = true) (hs : shouldRun cfg t = true) (hw : willRun cfg t = true)
+    (hx : cfg.exceptions = true) (hr : cfg.rethrow = true) (hsep : cfg.separate = false) (hs : shouldRun cfg t = true) (hw : willRun cfg t = true)
     (hf : firstThrow cfg t = some (ph, k)) :
     ∀ (pre : List Test) (s : LSt), (∀ x ∈ pre, QuietTest cfg x) → inBuf s.depth = true → inBuf (s.depth + 1) = true →
       ∃ p, runTests cfg plugins (pre ++ t :: post) s = .error (.propagated p) ∧ LeftOutcome cfg plugins pre t ph k s.depth p
   | [], s, _, h0, h1 => by
-    obtain ⟨q, hq, oq⟩ := runEntry_propagates cfg plugins t (endOfGroup t post) s ph k hx hr hs hw hf h0 h1
+    obtain ⟨q, hq, oq⟩ := runEntry_propagates cfg plugins t (endOfGroup t post) s ph k hx hr hsep hs hw hf h0 h1
     simp only [List.nil_append]
     unfold runTests
     rw [hq]
     exact ⟨_, rfl, oq⟩
   | x :: pre, s, hq, h0, h1 => by
     obtain ⟨a, ha, oa⟩ := runEntry_closed cfg plugins x (endOfGroup x (pre ++ t :: post)) s (hq x (by simp)) h0 h1
-    obtain ⟨q, hqq, oq⟩ := runTests_propagates cfg plugins t post ph k hx hr hs hw hf pre a.st
+    obtain ⟨q, hqq, oq⟩ := runTests_propagates cfg plugins t post ph k hx hr hsep hs hw hf pre a.st
       (fun y hy => hq y (by simp [hy])) (by rw [oa.depth]; exact h0) (by rw [oa.depth]; exact h1)
     simp only [List.cons_append]
     unfold runTests
@@ -1767,12 +2014,12 @@ theorem runTests_propagates (cfg : Cfg) (plugins : List Plugin) (t : Test) (post
 
 theorem runAllTests_propagates (cfg : Cfg) (plugins : List Plugin) (pre : List Test) (t : Test) (post : List Test)
     (ph : Phase) (k : ExcKind) (n : Nat) (d : Int)
-    (hx : cfg.exceptions = true) (hr : cfg.rethrow = true) (hq : ∀ x ∈ pre, QuietTest cfg x)
+    (hx : cfg.exceptions = true) (hr : cfg.rethrow = true) (hsep : cfg.separate = false) (hq : ∀ x ∈ pre, QuietTest cfg x)
     (hs : shouldRun cfg t = true) (hw : willRun cfg t = true) (hf : firstThrow cfg t = some (ph, k)) (hn : 0 < n)
     (h0 : inBuf d = true) (h1 : inBuf (d + 1) = true) :
     ∃ p, runAllTests cfg plugins (pre ++ t :: post) n d = .error (.propagated p) ∧ LeftOutcome cfg plugins pre t ph k d p := by
   obtain ⟨m, rfl⟩ : ∃ m, n = m + 1 := ⟨n - 1, by omega⟩
-  obtain ⟨q, hqq, oq⟩ := runTests_propagates cfg plugins t post ph k hx hr hs hw hf pre
+  obtain ⟨q, hqq, oq⟩ := runTests_propagates cfg plugins t post ph k hx hr hsep hs hw hf pre
     ⟨{}, d, none, {}, 0 + 1, true⟩ hq h0 h1
   obtain ⟨t1, t2, t3, t4, t5⟩ := testRunToks_inert 1 (m + 1)
   unfold runAllTests repeatLoop repetition registryRunAll
@@ -1848,10 +2095,10 @@ theorem summaryToks_noMarker (c : Bool) (r : Result) (time : Nat) : ∀ a ∈ su
 
 /-- what the theorem asks of the free strings of an event list -/
 def CleanEvs (evs : List Ev) : Prop :=
-  (∀ s ∈ plainToksOf evs, s ∉ markers) ∧ (∀ r ∈ failuresOf evs, r.clean)
+  (∀ s ∈ plainToksOf evs, s ∉ markers) ∧ (∀ r ∈ recordsOf evs, r.clean)
 
 theorem scanFrom_toksOf (c : Bool) : ∀ (evs : List Ev) (w : List String), CleanEvs evs →
-    scanFrom w (toksOf c evs) = (failuresOf evs).map FailRec.printed
+    scanFrom w (toksOf c evs) = (recordsOf evs).map FailRec.printed
   | [], w, _ => by simp [toksOf, scanFrom]
   | e :: evs, w, h => by
     have htl : CleanEvs evs := by
@@ -1867,21 +2114,25 @@ theorem scanFrom_toksOf (c : Bool) : ∀ (evs : List Ev) (w : List String), Clea
         simp only [markers, List.mem_cons, List.mem_nil_iff, or_false, not_or] at this
         exact this.1
       simp only [Ev.toks, List.singleton_append, scanFrom, hs, if_false]
-      simpa [Ev.failure?] using scanFrom_toksOf c evs _ htl
+      simpa [Ev.record?] using scanFrom_toksOf c evs _ htl
     | failure r =>
       simp only [Ev.toks]
-      rw [scanFrom_failureToks r (h.2 r (by simp [Ev.failure?])) w (toksOf c evs), scanFrom_toksOf c evs _ htl]
-      simp [Ev.failure?]
+      rw [scanFrom_failureToks r (h.2 r (by simp [Ev.record?])) w (toksOf c evs), scanFrom_toksOf c evs _ htl]
+      simp [Ev.record?]
+    | sepFailure r =>
+      simp only [Ev.toks]
+      rw [scanFrom_failureToks r (h.2 r (by simp [Ev.record?])) w (toksOf c evs), scanFrom_toksOf c evs _ htl]
+      simp [Ev.record?]
     | summary r time =>
       simp only [Ev.toks]
       rw [scanFrom_skip _ w _ (summaryToks_noMarker c r time), scanFrom_toksOf c evs _ htl]
-      simp [Ev.failure?]
-    | enter ph d => simpa [Ev.toks, Ev.failure?] using scanFrom_toksOf c evs w htl
-    | mark ph n d => simpa [Ev.toks, Ev.failure?] using scanFrom_toksOf c evs w htl
-    | plug n po d => simpa [Ev.toks, Ev.failure?] using scanFrom_toksOf c evs w htl
-    | ended d cu f => simpa [Ev.toks, Ev.failure?] using scanFrom_toksOf c evs w htl
-    | clock v => simpa [Ev.toks, Ev.failure?] using scanFrom_toksOf c evs w htl
-    | ret v => simpa [Ev.toks, Ev.failure?] using scanFrom_toksOf c evs w htl
+      simp [Ev.record?]
+    | enter ph d => simpa [Ev.toks, Ev.record?] using scanFrom_toksOf c evs w htl
+    | mark ph n d => simpa [Ev.toks, Ev.record?] using scanFrom_toksOf c evs w htl
+    | plug n po d => simpa [Ev.toks, Ev.record?] using scanFrom_toksOf c evs w htl
+    | ended d cu f => simpa [Ev.toks, Ev.record?] using scanFrom_toksOf c evs w htl
+    | clock v => simpa [Ev.toks, Ev.record?] using scanFrom_toksOf c evs w htl
+    | ret v => simpa [Ev.toks, Ev.record?] using scanFrom_toksOf c evs w htl
 
 /-! ### summaries -/
 
@@ -2033,7 +2284,11 @@ theorem scanSummaries_toksOf (c : Bool) : ∀ (evs : List Ev), CleanEvs evs →
       simpa [Ev.summary?] using ih
     | failure r =>
       simp only [Ev.toks]
-      rw [scanSummaries_skip _ _ (failureToks_noHead r (h.2 r (by simp [Ev.failure?]))), ih]
+      rw [scanSummaries_skip _ _ (failureToks_noHead r (h.2 r (by simp [Ev.record?]))), ih]
+      simp [Ev.summary?]
+    | sepFailure r =>
+      simp only [Ev.toks]
+      rw [scanSummaries_skip _ _ (failureToks_noHead r (h.2 r (by simp [Ev.record?]))), ih]
       simp [Ev.summary?]
     | summary r time =>
       simp only [Ev.toks]
